@@ -321,8 +321,7 @@ class List(list, base.Symbolic, pg_typing.CustomTyping):
     """Override Symbolic._clone."""
     source = []
     for v in self.sym_values():
-      if deep or isinstance(v, base.Symbolic):
-        v = base.clone(v, deep, memo)
+      v = base.clone_member(v, deep, memo)
       source.append(v)
     return List(
         source,
